@@ -1,4 +1,4 @@
-(* C15 driver: enc / dec / spec / reasm *)
+(* C15 driver: enc / dec / spec / reasm / sess *)
 open Drv
 let item_of_tok t = match Stdlib.String.split_on_char ':' t with
   | [k; h] -> (n_of_int (int_of_string k), bytes_of_hex h)
@@ -12,7 +12,37 @@ let res_bytes = function
 let res_items = function
   | Res.Ok l -> "ok " ^ items_str l | Res.Err e -> "err " ^ err_str e
   | Res.Crash -> "crash" | Res.OutOfFuel -> "fuel"
+(* sess o:<b|a>:<hex> ... -- E:<k>@<r>,... | D:<ehex|->:<r> | A:<r>:<hex>   (one store, any history) *)
+let obj_of_tok t = match Stdlib.String.split_on_char ':' t with
+  | ["o"; "b"; h] -> (TlvObj.KBytes, bytes_of_hex h)
+  | ["o"; "a"; h] -> (TlvObj.KByteArray, bytes_of_hex h)
+  | _ -> failwith "obj"
+let kr_of_tok t = match Stdlib.String.split_on_char '@' t with
+  | [k; r] -> (n_of_int (int_of_string k), nat_of_int (int_of_string r))
+  | _ -> failwith "kr"
+let op_of_tok t = match Stdlib.String.split_on_char ':' t with
+  | ["E"; a] -> TlvObj.OEnc (Stdlib.List.map kr_of_tok (split_on ',' a))
+  | ["D"; e; r] -> TlvObj.ODec ((if e = "-" then [] else bytes_of_hex e), nat_of_int (int_of_string r))
+  | ["A"; r; h] -> TlvObj.OAppend (nat_of_int (int_of_string r), bytes_of_hex h)
+  | _ -> failwith "op"
+let kr_str (k, r) = string_of_int (int_of_n k) ^ "@" ^ string_of_int (int_of_nat r)
+let out_str = function
+  | TlvObj.REnc r -> "enc " ^ res_bytes r
+  | TlvObj.RDec (Res.Ok a) -> "dec ok " ^ (if a = [] then "." else Stdlib.String.concat "," (Stdlib.List.map kr_str a))
+  | TlvObj.RDec (Res.Err e) -> "dec err " ^ err_str e
+  | TlvObj.RDec Res.Crash -> "dec crash" | TlvObj.RDec Res.OutOfFuel -> "dec fuel"
+  | TlvObj.RApp b -> if b then "app 1" else "app 0"
+let obj_str (k, v) = (match k with TlvObj.KBytes -> "b:" | TlvObj.KByteArray -> "a:") ^ hex_of_bytes v
+let rec split_at_dashes acc = function
+  | [] -> (Stdlib.List.rev acc, [])
+  | "--" :: r -> (Stdlib.List.rev acc, r)
+  | x :: r -> split_at_dashes (x :: acc) r
 let handle = function
+  | "sess" :: rest ->
+      let (objs, ops) = split_at_dashes [] rest in
+      let (s, outs) = TlvObj.tlv_obj_run (Stdlib.List.map obj_of_tok objs) (Stdlib.List.map op_of_tok ops) in
+      Stdlib.String.concat " | " (Stdlib.List.map out_str outs) ^ " || " ^
+      Stdlib.String.concat " " (Stdlib.List.map obj_str s)
   | "enc" :: items -> res_bytes (Tlv.tlv_encode (Stdlib.List.map item_of_tok items))
   | "spec" :: items -> "ok " ^ hex_of_bytes (Tlv.tlv_spec_encode (Stdlib.List.map item_of_tok items))
   | ["dec"; e; h] -> res_items (Tlv.tlv_decode_exp (bytes_of_hex e) (bytes_of_hex h))
